@@ -94,9 +94,14 @@ func factsOf(s *sqlStmt, b binder) *stmtFacts {
 	own := s.Table
 	switch s.Kind {
 	case "select":
-		f.Where = conjuncts(s.Where, "", b)
+		// an unaliased single-table select may qualify its columns with the table name
+		selOwn := ""
+		if s.Alias == "" {
+			selOwn = s.Table
+		}
+		f.Where = conjuncts(s.Where, selOwn, b)
 		for _, c := range s.SelCols {
-			f.SelCols = append(f.SelCols, canonExpr(c, "", b))
+			f.SelCols = append(f.SelCols, canonExpr(c, selOwn, b))
 		}
 		f.OnePer = onePer(s)
 		if len(s.OrderBy) > 0 {
